@@ -1,4 +1,4 @@
-import FluteModel.Lemmas.SchedExpire
+import FluteModel.Lemmas.SchedGone
 /-
   C12 - Transfer lifecycle.  All theorems quantify over every configuration, every FDT table and EVERY
   operation history (add / publish / remove / trigger / read / set_complete with arbitrary times).
@@ -55,12 +55,63 @@ theorem exact_transfer_count_partial (cfg : Cfg) (tbl : List Nat) (ops : List Op
       rw [r.stops, ← r.active, ← npk_eq h2] at this
       exact this
 
+/-- EXACT transfer count, equality (state form), after every operation history: an object without carousel mode that
+    has not been removed is gone from the sender (`is_added` false, hence not in `nb_objects`, and by
+    `lifecycle_checked` / `later_publications_exclude` in no later FDT instance) IF AND ONLY IF it has completed
+    exactly `max(1, max_transfer_count)` transfers (StopTransfer events; `exact_transfer_count_partial`: never more,
+    and unforced ones are whole on the wire).  What remains is that it does get there:
+    `exact_transfer_count_eventually` and the `*_liveness_step_partial` theorems. -/
+theorem exact_transfer_count (cfg : Cfg) (tbl : List Nat) (ops : List Op) (toi : Nat) (a : AddArgs)
+    (ha : (LM.run toi (trace cfg tbl ops)).args = some a) (hc : a.carousel = none)
+    (hr : (LM.run toi (trace cfg tbl ops)).removed = none) :
+    isAdded (run (init cfg tbl) ops) toi = false ↔ (LM.run toi (trace cfg tbl ops)).stops = burst a := by
+  constructor
+  · intro hgone
+    have hl := (life_run cfg tbl ops).2
+    cases hf : getF (run (init cfg tbl) ops).objs toi with
+    | none =>
+      have := hl.unknown toi hf
+      unfold trace at ha; rw [this] at ha; cases ha
+    | some f =>
+      have r := hl.rel toi f hf
+      unfold trace at ha hr ⊢
+      obtain ⟨a', h1, _, h3, h4, _⟩ := r.args
+      rw [ha] at h1; cases h1
+      have hnf : toi ∉ (run (init cfg tbl) ops).files := by
+        unfold isAdded at hgone
+        intro hin
+        have : (run (init cfg tbl) ops).files.contains toi = true := by simpa using hin
+        rw [this] at hgone; cases hgone
+      rcases gone_run cfg tbl ops toi f hf (by rw [← h4]; exact hc) hnf with h5 | h5
+      · rw [hr] at h5; cases h5
+      · rw [r.stops, h5, burst_eq h3]
+  · exact (exact_transfer_count_partial cfg tbl ops toi a ha hc).2.1
+
+/-- EVENTUALLY, for a sender whose objects are not paced, polled at ONE instant: let the sender be in any reachable
+    state in which no object has a target duration / deadline (`Unpaced.all`: pacing is the only thing that makes the
+    sender wait inside an instant), `0 < fdt_duration`, and let object `toi` be without carousel, published
+    (FullFDT) and past its start time at `N`, its priority queue configured.  Then among ANY
+    `mu N + max(1, max_transfer_count)` consecutive calls `read(N)` (any tick inputs) the object has left the sender
+    before one of them (`AllIn`: "in the sender before every call of the sequence and after the last" is false) -
+    and by `exact_transfer_count` it then has completed EXACTLY `max(1, max_transfer_count)` transfers.
+    Proof: at most `mu` calls return something (`read_terminates`); a call that returns `None` while the object is
+    still there finds it in a slot with its transfer finished (it cannot be waiting: `strict_priority`, no gate is
+    closed) and releases it, so its transfer counter grows with every such call, and it is bounded by the count.
+    PACED objects / several instants: the due instants depend on the per-transfer ticks; for them the liveness is the
+    step form below (`exact_transfer_count_liveness_step_partial`). -/
+theorem exact_transfer_count_eventually (cfg : Cfg) (tbl : List Nat) (hdur : 0 < cfg.fdtDuration)
+    (hsorted : (cfg.queues.map (fun x => x.1)).Pairwise (fun a b => a < b)) (ops : List Op) (toi N : Nat)
+    (f : FileDesc) (hu : Unpaced (run (init cfg tbl) ops) toi N f) (hprio : f.prio ∈ cfg.queues.map (fun x => x.1))
+    (tks : List (List (Nat × Nat))) (hlen : mu N tbl (run (init cfg tbl) ops) + burstF f ≤ tks.length) :
+    ¬ AllIn toi N (run (init cfg tbl) ops) tks :=
+  leaves_within cfg tbl hdur hsorted ops toi N f hu hprio tks hlen
+
 /-- Liveness step for `exact_transfer_count_partial` (the "at least" half, contrapositive form), after every
     operation history: if an object WITHOUT carousel is still in the sender and `read(now)` returns `None`, then the
     object is held back for one of these explicit reasons, each of which is lifted by the caller or by the clock:
     (waiting) it is not published yet (FullFDT: the caller must `publish`), or its start time is in the future, or
-      every slot of its priority queue is occupied (by `in transfer` below, applied to those transfers: each of them
-      is pacing - finding F23 - or finished and released by this very call);
+      every slot of its priority queue holds a transfer whose pacing gate is closed at `now` (finding F23; a slot
+      holding a FINISHED transfer does not block: the poll releases it and starts the waiting object at once);
     (in transfer) its pacing gate is closed (next packet due after `now`), or the transfer is finished (stopped /
       all packets sent) and this very call releases it (`StopTransfer`, requeue or disappearance).
     Together with `read_terminates` (at one instant only `mu` calls return something): polling an instant until
@@ -79,7 +130,9 @@ theorem exact_transfer_count_liveness_step_partial (cfg : Cfg) (tbl : List Nat) 
     (toi ∈ (run (init cfg tbl) ops).queue ∧
       (((run (init cfg tbl) ops).cfg.mode = .full ∧ f.published = false) ∨
        (∃ st, f.info.startTime = some st ∧ now < st) ∨
-       (∀ q ∈ (run (init cfg tbl) ops).sessions, q.prio = f.prio → ∀ (j : Nat), q.slots[j]? ≠ some none))) ∨
+       (∀ q ∈ (run (init cfg tbl) ops).sessions, q.prio = f.prio → ∀ (j : Nat) (curj : Option Cur),
+          q.slots[j]? = some curj →
+          ∃ c g, curj = some c ∧ getF (run (init cfg tbl) ops).objs c.key = some g ∧ gateBlocked g now = true))) ∨
     (∃ pc ∈ heldOf (run (init cfg tbl) ops), pc.2.key = toi ∧
       (gateBlocked f now = true ∨ pc.2.enc.stopped = true ∨ f.nPk ≤ pc.2.enc.sent)) := by
   have hl := (life_run cfg tbl ops).2
@@ -159,7 +212,7 @@ theorem carousel_until_removed (cfg : Cfg) (tbl : List Nat) (ops : List Op) (toi
     `read(now)` returns `None`, the object waits for an explicit reason: not published (FullFDT), start time in the
     future, its burst of `max_transfer_count` transfers is complete and the carousel gap has not elapsed yet
     (`gapElapsed = false`: `now - previous end ≤ delay` resp. `now - previous start ≤ interval`), every slot of its
-    queue occupied - or it is in transfer with a closed pacing gate / a finished transfer that this call releases.
+    queue held by a pacing transfer (gate closed) - or it is in transfer with a closed pacing gate / a finished transfer that this call releases.
     So a carousel object that is polled (until `None`) past the gap starts its next transfer; for every k there is
     a k-th start as long as it is not removed.  PARTIAL: the induction over k / the polling schedule is not
     formalised. -/
@@ -172,7 +225,9 @@ theorem carousel_liveness_step_partial (cfg : Cfg) (tbl : List Nat) (ops : List 
       (((run (init cfg tbl) ops).cfg.mode = .full ∧ f.published = false) ∨
        (∃ st, f.info.startTime = some st ∧ now < st) ∨
        (f.maxCount ≤ f.info.count ∧ gapElapsed f now = false) ∨
-       (∀ q ∈ (run (init cfg tbl) ops).sessions, q.prio = f.prio → ∀ (j : Nat), q.slots[j]? ≠ some none))) ∨
+       (∀ q ∈ (run (init cfg tbl) ops).sessions, q.prio = f.prio → ∀ (j : Nat) (curj : Option Cur),
+          q.slots[j]? = some curj →
+          ∃ c g, curj = some c ∧ getF (run (init cfg tbl) ops).objs c.key = some g ∧ gateBlocked g now = true))) ∨
     (∃ pc ∈ heldOf (run (init cfg tbl) ops), pc.2.key = toi ∧
       (gateBlocked f now = true ∨ pc.2.enc.stopped = true ∨ f.nPk ≤ pc.2.enc.sent)) := by
   have hl := (life_run cfg tbl ops).2
@@ -418,5 +473,17 @@ example : Expired cfgS (run (init cfgS []) (slowPoll.take 4)).lastPublish 300000
   have : (run (init cfgS []) (slowPoll.take 4)).lastPublish = some 2000000000 := by decide
   rw [this] at h; cases h
   decide
+
+/-- non-vacuity of `exact_transfer_count_eventually`: the hypotheses hold for `obj3` (3 packets, 2 transfers) after
+    add + publish; `mu` = 9 there (example above), so the object is gone within 11 calls - in fact after 9 -/
+example : ∃ f, Unpaced (run (init cfg1 [1]) [.add obj3, .publish 5]) 1 5 f ∧ f.prio ∈ cfg1.queues.map (fun x => x.1) := by
+  have hobj : ∃ f, getF (run (init cfg1 [1]) [.add obj3, .publish 5]).objs 1 = some f ∧ f.carousel = none ∧
+      f.published = true ∧ f.info.startTime = none ∧ f.prio = 0 := by
+    refine ⟨_, rfl, ?_, ?_, ?_, ?_⟩ <;> decide
+  obtain ⟨f, h1, h2, h3, h4, h5⟩ := hobj
+  have hall : ∀ g ∈ (run (init cfg1 [1]) [.add obj3, .publish 5]).objs, wantsTick g = false := by decide
+  exact ⟨f, Unpaced.mk h1 h2 (fun _ => h3) (fun st h => by rw [h4] at h; cases h) (fun k g h => hall g (getF_mem h)),
+    by rw [h5]; decide⟩
+example : isAdded (reads (run (init cfg1 [1]) [.add obj3, .publish 5]) 5 [] 9).1 1 = false := by decide
 
 end Flute.Props.C12
